@@ -272,6 +272,67 @@ def law_at(ctx, shapes):
     return {'law': 'at', 'shapes': list(shapes), 'where': where}
 
 
+DERIVED = ['range', 'exprange', 'duration', 'pairs-twice']        # curverange: same code path, its kernel needs a 3-argument pow the shim lacks
+
+
+def _derive(E, kind, levels, times, lo, hi, pts=None):
+    """-> (object whose encodings are asked for, a fresh envelope built from that object's public fields)"""
+    e = E(list(levels), list(times), 'lin')
+    e._envgen_format()
+    e._interpolation_format()           # both encodings are cached now
+    if kind == 'range':
+        r = e.range(lo, hi)
+    elif kind == 'exprange':
+        r = e.exprange(lo, hi)
+    elif kind == 'curverange':
+        r = e.curverange(lo, hi, 2)
+    else:
+        e.duration = hi
+        r = e
+    fresh = E(list(r.levels), list(r.times), r.curves, r.release_node, r.loop_node, r.offset)
+    return r, fresh
+
+
+def law_derived(ctx, dk):
+    """an envelope derived from one whose encodings were already computed (range / exprange / curverange copies, a new
+    duration) is encoded like a fresh envelope with the same levels, times and curves; Env.pairs leaves the caller's
+    points alone and accepts them a second time"""
+    env = _env()
+    E = env.Env
+    kind = DERIVED[dk]
+    names = ['L0', 'L1', 'L2', 'T0', 'T1', 'lo', 'hi']
+    data = {'key': f'env:derived:{kind}', 'replay': {'mode': 'nrt', 'kind': 'derived', 'which': kind, 'names': names}}
+    if kind == 'pairs-twice':
+        x = [ctx.real(f'L{i}') for i in range(3)]
+        ctx.assume(z3.And(x[0].e < x[1].e, x[1].e < x[2].e))
+        pts = [[x[0], 1.0], [x[1], 2.0], [x[2], 0.5]]
+        with symx.shims():
+            a = E.pairs(pts, 'sin')
+            if [len(p_) for p_ in pts] != [2, 2, 2]:
+                raise Violation(f'Env.pairs changed the caller\'s control points: {[len(p_) for p_ in pts]} entries each',
+                                None, data)
+            b = E.pairs(pts, 'sin')
+        for u, w in zip(list(a.levels) + list(a.times), list(b.levels) + list(b.times)):
+            _eq(ctx, u, w, 'Env.pairs called twice with the same points gives different envelopes', data)
+        return {'law': 'derived', 'which': kind}
+    levels = [ctx.real(f'L{i}', 0.125, 100) for i in range(3)]
+    ctx.assume(z3.And(levels[0].e < levels[1].e, levels[1].e != levels[2].e, levels[0].e < levels[2].e))
+    times = [ctx.real(f'T{i}', 0.125, 100) for i in range(2)]
+    lo, hi = ctx.real('lo', 0.125, 50), ctx.real('hi', 51, 100)
+    with symx.shims():
+        r, fresh = _derive(E, kind, levels, times, lo, hi)
+        got, want = r._envgen_format(), fresh._envgen_format()
+        got2, want2 = r._interpolation_format(), fresh._interpolation_format()
+    for g_, w_, nm in ((got, want, 'EnvGen'), (got2, want2, 'IEnvGen')):
+        if len(g_) != 1 or len(w_) != 1 or len(g_[0]) != len(w_[0]):
+            raise Violation(f'{kind}: {nm} encoding has a different shape than a fresh envelope with the same fields', None,
+                            data)
+        for k, (u, w) in enumerate(zip(g_[0], w_[0])):
+            _eq(ctx, u, w, f'{kind}: entry {k} of the {nm} encoding is not the one of a fresh envelope with the same '
+                'levels / times (stale encoding kept from before the change)', data)
+    return {'law': 'derived', 'which': kind}
+
+
 def guarded(f, kind, replay):
     """documented inputs must not make the library raise"""
     def h(ctx):
@@ -301,6 +362,9 @@ def job(j):
         h = guarded(lambda c: law_constructor(c, j['which']), j['which'],
                     lambda c: {'mode': 'nrt', 'kind': 'constructor', 'which': j['which'], 'names': [],
                                'rel': c.vars.get('rel', (0, 0))[1] if isinstance(c.vars.get('rel'), tuple) else 0})
+    elif j['law'] == 'derived':
+        h = guarded(lambda c: law_derived(c, j['dk']), 'derived',
+                    lambda c: {'mode': 'nrt', 'kind': 'derived', 'which': DERIVED[j['dk']], 'names': []})
     else:
         h = guarded(lambda c: law_at(c, tuple(j['shapes'])), 'Env._at',
                     lambda c: {'mode': 'nrt', 'kind': 'at', 'shapes': list(j['shapes']), 'where': 0, 'names': []})
@@ -328,6 +392,29 @@ def replay(rec):
     E = env.Env
     v = rec.get('values', {})
     g = lambda n, d=1.0: float(v[n]) if v.get(n) is not None else d    # noqa
+    if rec.get('kind') == 'derived':
+        kind = rec['which']
+        try:
+            if kind == 'pairs-twice':
+                pts = [[0.0, 1.0], [1.0, 2.0], [2.5, 0.5]]
+                a = E.pairs(pts, 'sin')
+                if [len(p_) for p_ in pts] != [2, 2, 2]:
+                    return f'Env.pairs changed the caller\'s control points: {pts}'
+                b = E.pairs(pts, 'sin')
+                return None if (list(a.levels), list(a.times)) == (list(b.levels), list(b.times)) else \
+                    'Env.pairs called twice with the same points gives different envelopes'
+            levels = [g('L0', 1.0), g('L1', 2.0), g('L2', 1.5)]
+            times = [g('T0', 1.0), g('T1', 2.0)]
+            r, fresh = _derive(E, kind, levels, times, g('lo', 10.0), g('hi', 60.0))
+            for nm in ('_envgen_format', '_interpolation_format'):
+                a, b = getattr(r, nm)()[0], getattr(fresh, nm)()[0]
+                if len(a) != len(b) or any(abs(float(x) - float(y)) > 1e-9 * (1 + abs(float(y))) for x, y in zip(a, b)):
+                    return f'{kind} of Env({levels}, {times}) after its encodings were computed: {nm}() gives ' \
+                           f'{list(a)}, a fresh envelope with the same levels {list(r.levels)} and times ' \
+                           f'{list(r.times)} gives {list(b)}'
+        except Exception as ex:
+            return f'{kind}: raised {type(ex).__name__}: {ex}'
+        return None
     tol = lambda a, b: abs(a - b) <= 1e-6 * (1 + abs(a) + abs(b))     # noqa
     if rec['kind'] == 'raises-layout':
         n, ch = rec['n'], rec['choices']
@@ -480,10 +567,11 @@ def main(tier, seed):
     E = env.Env
     chk.functions = src_hash([E.__init__, E._envgen_format, E._at, E._env_at, E._shape_number, E._curve_value,
                               E.triangle, E.sine, E.perc, E.linen, E.adsr, E.dadsr, E.asr, E.cutoff, E.step, E.pairs,
-                              E.xyc])
+                              E.xyc, E.range, E.exprange, E.curverange, E._interpolation_format])
     nmax = 3 if tier == 'quick' else 4
     jobs = [dict(law='layout', n=n, ck=ck) for n in range(1, nmax + 1) for ck in range(len(CURVE_KINDS))]
     jobs += [dict(law='constructor', which=w) for w in CONSTRUCTORS]
+    jobs += [dict(law='derived', dk=k) for k in range(len(DERIVED))]
     jobs += [dict(law='at', shapes=[s]) for s in AT_SHAPES]
     jobs += [dict(law='at', shapes=list(p)) for p in itertools.product(AT_SHAPES, repeat=2)]
     if tier == 'thorough':
